@@ -571,7 +571,8 @@ def _backend_counts(discharged):
 
 def _trusted():
     from pyvc.builtins import TRUSTED
-    return ["pyvc symbolic executor and VC generator (pyvc/symexec.py, pyvc/z.py)", "z3 5.1.0"] + list(TRUSTED)
+    from pyvc.views_model import TRUSTED as VIEW_TRUSTED
+    return ["pyvc symbolic executor and VC generator (pyvc/symexec.py, pyvc/z.py)", "z3 5.1.0"] + list(TRUSTED) + list(VIEW_TRUSTED)
 
 
 def main(argv=None):
